@@ -152,6 +152,15 @@ def parse_stream(crate, t):
         if s is None:
             return None
         return [seg(g["count"], ("deref", g["value"]), g["cond"]) for g in s]
+    if name.endswith("Iterator::rev") and len(a) == 1:
+        s = parse_stream(crate, a[0])
+        if s is None or any("inner" in g for g in s):
+            return None
+        out = []
+        for g in reversed(s):       # element ix of the reversed stream is element count-1-ix of the original
+            j = ("op", "Sub", ("op", "Sub", g["count"], ("const", 1)), IX)
+            out.append(seg(g["count"], subst(g["value"], IX, j), subst(g["cond"], IX, j) if g["cond"] is not None else None))
+        return out
     if name.endswith("Iterator::flatten") and len(a) == 1:
         s = parse_stream(crate, a[0])
         if s is None or len(s) != 1 or "inner" in s[0] or s[0]["cond"] is not None:
